@@ -119,9 +119,30 @@ def ref_measurable_value(model, name, t, pop_names):
     return val
 
 
+def ref_cascade_stage_value(model, cascade_name, t, stage):
+    """Documented MaximizeCascadeStage: people in the given stage of the cascade (all populations), summed over the years t."""
+    fw = model.framework
+    df = fw.cascades[cascade_name]
+    stages = [[x.strip() for x in row.iloc[1].split(",")] for _, row in df.iterrows()]
+    includes = stages[stage]
+    total = np.zeros(model.t.shape)
+    ptype = None
+    for inc in includes:
+        for cn in fw.get_charac_includes([inc]):
+            ptype = fw.comps.at[cn, "population type"]
+            for pop in model.pops:
+                if pop.type == ptype:
+                    total = total + pop.get_comp(cn).vals
+    tt = np.atleast_1d(np.array(t, dtype=float))
+    return float(np.sum(np.interp(tt, model.t, total, left=np.nan, right=np.nan)))
+
+
 def ref_optimization_objective(model, mspecs):
     total = 0.0
     for m in mspecs:
+        if m["type"] == "cascade_stage":
+            total += -ref_cascade_stage_value(model, m["name"], m["t"], m["stage"])
+            continue
         val = ref_measurable_value(model, m["name"], m["t"], m.get("pops"))
         if m["type"] == "min":
             total += val
@@ -287,6 +308,16 @@ def gen_optimization(ch):
     constraint = None
     if ch.flip("total_spend_constraint", 0.6):
         constraint = {"budget_factor": [1.0, 1.0, 0.8, 1.3][ch.choose("budget_factor", 4)], "explicit_t": ch.flip("constraint_explicit_t", 0.3)}
+    package = None
+    if len(progs) >= 2 and ch.flip("spending_package", 0.2):
+        # a SpendingPackageAdjustment over the chosen programs instead of independent adjustments
+        k = 2 + ch.choose("package.n", min(2, len(chosen) - 1))
+        mode = ch.pick("package.mode", ["free_props_fixed_total", "free_props_free_total", "fixed_props_free_total"])
+        package = {"progs": chosen[:k], "t": start, "mode": mode, "min_prop": [None, 0.05][ch.choose("package.min_prop", 2)], "max_prop": [None, 0.95][ch.choose("package.max_prop", 2)], "total_range": [0.8, 1.25]}
+        constraint = None
+    if fw.cascades and ch.flip("cascade_measurable", 0.2):
+        cname = list(fw.cascades.keys())[ch.choose("cascade.which", len(fw.cascades))]
+        measurables[0] = {"type": "cascade_stage", "name": cname, "t": [min(end, start + 1 + ch.choose("cascade.t", 3))], "pops": None, "stage": [-1, 0, 1][ch.choose("cascade.stage", 3)], "threshold_margin": 0.2}
     spec = {
         "kind": "optimize",
         "project": name,
@@ -295,6 +326,7 @@ def gen_optimization(ch):
         "adjustments": adjustments,
         "measurables": measurables,
         "constraint": constraint,
+        "package": package,
         "maxiters": 1 + ch.choose("maxiters", 12),
         "max_time": [60.0, 3.0, 0.5, 0.01][ch.choose("max_time", 4)],
         "randseed": ch.choose("randseed", 2**31 - 1),
@@ -492,12 +524,37 @@ def execute(spec, fault, bump):
             elif kind == "optimize":
                 instructions = at.ProgramInstructions(start_year=spec["start"], alloc=progset)
                 adjustments = [at.SpendingAdjustment(a["prog"], a["t"], a["limit"], a["lower"], a["upper"]) for a in spec["adjustments"]]
+                pk = spec.get("package")
+                if pk:
+                    init = np.array([float(progset.get_alloc(pk["t"], instructions)[pn][0]) for pn in pk["progs"]])
+                    tot = float(init.sum())
+                    kwp = {}
+                    if pk["min_prop"] is not None:
+                        kwp["min_props"] = [min(pk["min_prop"], float(x) / tot) if tot > 0 else 0.0 for x in init]
+                    if pk["max_prop"] is not None:
+                        kwp["max_props"] = [max(pk["max_prop"], float(x) / tot) if tot > 0 else 1.0 for x in init]
+                    if pk["mode"] in ("free_props_free_total", "fixed_props_free_total"):
+                        kwp["min_total_spend"] = tot * pk["total_range"][0]
+                        kwp["max_total_spend"] = tot * pk["total_range"][1]
+                    if pk["mode"] == "fixed_props_free_total":
+                        kwp["fix_props"] = True
+                    adjustments = [at.SpendingPackageAdjustment("package", pk["t"], list(pk["progs"]), init, **kwp)]
+                    if fault is None:
+                        bump(f"probe:spending_package:{pk['mode']}")
+                    pk["_init"] = init.tolist()
+                    pk["_kw"] = {k2: (list(map(float, v2)) if isinstance(v2, (list, np.ndarray)) else v2) for k2, v2 in kwp.items()}
                 # thresholds for hard targets relative to the baseline value (so that the start satisfies them)
                 base_model = None
                 mspecs = []
                 measurables = []
                 for m in spec["measurables"]:
                     m = dict(m)
+                    if m["type"] == "cascade_stage":
+                        mspecs.append(m)
+                        measurables.append(at.MaximizeCascadeStage(m["name"], m["t"], pop_names="all", cascade_stage=m["stage"]))
+                        if fault is None:
+                            bump("probe:cascade_stage_measurable")
+                        continue
                     if m["type"] in ("increaseby", "decreaseby"):
                         # relative hard targets: the baseline is the value under the ORIGINAL instructions (documented);
                         # an amount of 0 makes the starting point satisfy the target
@@ -532,6 +589,8 @@ def execute(spec, fault, bump):
                         base_model = P.run_sim(parset, progset, instructions).model
                 all_pops = [p.name for p in base_model.pops]
                 for m in mspecs:
+                    if m["type"] == "cascade_stage":
+                        continue
                     pops_variants = [m["pops"]]
                     if len(all_pops) > 1:
                         pops_variants.append(all_pops[:1])  # a strict subset, whatever the problem itself selected
@@ -753,7 +812,25 @@ def execute(spec, fault, bump):
             violate("hard_target_lost", "optimize", {"f_start": f0, "f_final": f_final})
         # bounds and total spend
         base_instr = at.ProgramInstructions(start_year=spec["start"], alloc=P2.progsets[0])
-        for a in spec["adjustments"]:
+        pk = spec.get("package")
+        if pk:
+            vals = np.array([new_instr.alloc[pn].get(pk["t"]) for pn in pk["progs"]], dtype=float)
+            tot0 = float(np.sum(pk["_init"]))
+            kwp = pk["_kw"]
+            lo_t, hi_t = kwp.get("min_total_spend", tot0), kwp.get("max_total_spend", tot0)
+            if not (lo_t - 1e-6 * max(1, tot0) <= vals.sum() <= hi_t + 1e-6 * max(1, tot0)):
+                violate("adjusted_value_out_of_bounds", "optimize:package_total", {"total": float(vals.sum()), "bounds": [lo_t, hi_t]})
+            if vals.sum() > 0:
+                fr = vals / vals.sum()
+                mn = np.array(kwp.get("min_props", [0.0] * len(fr)))
+                mx = np.array(kwp.get("max_props", [1.0] * len(fr)))
+                if kwp.get("fix_props"):
+                    f0 = np.array(pk["_init"]) / tot0 if tot0 > 0 else fr
+                    if np.max(np.abs(fr - f0)) > 1e-6:
+                        violate("adjusted_value_out_of_bounds", "optimize:package_fixed_proportions", {"fractions": fr.tolist(), "initial": f0.tolist()})
+                elif np.any(fr < mn - 1e-6) or np.any(fr > mx + 1e-6):
+                    violate("adjusted_value_out_of_bounds", "optimize:package_proportions", {"fractions": fr.tolist(), "min": mn.tolist(), "max": mx.tolist()})
+        for a in ([] if pk else spec["adjustments"]):
             for t in a["t"]:
                 v = new_instr.alloc[a["prog"]].get(t)
                 x0 = float(P2.progsets[0].get_alloc(t, base_instr)[a["prog"]][0])
